@@ -8,6 +8,7 @@ import (
 	"bufio"
 	"flag"
 	"fmt"
+	"github.com/kercylan98/vivid/verifharness/access"
 	"os"
 	"strings"
 
@@ -28,6 +29,22 @@ func main() {
 	}
 	if name == "registry" {
 		engines.DumpRegistry()
+		return
+	}
+	if name == "access" {
+		// access <repo>: the shared-field access table, one row per line (tab separated)
+		rows, err := access.Extract(os.Args[2])
+		if err != nil {
+			fmt.Fprintln(os.Stderr, err)
+			os.Exit(2)
+		}
+		for _, a := range rows {
+			locks := strings.Join(a.Locks, ",")
+			if locks == "" {
+				locks = "-"
+			}
+			fmt.Printf("%s.%s\t%v\t%v\t%s\t%s\t%s\n", a.Struct, a.Field, a.Write, a.Atomic, locks, a.Role, a.Site)
+		}
 		return
 	}
 	if name == "consts" {
